@@ -1024,4 +1024,287 @@ theorem reopen_obs (P : Prim) (del : Bool) (s : St) (hA : InvA P s) (hV : InvVSR
     rw [reopen_getSRec P del s (fun k => hget _ k (fun b hb => by simp [storedValues, hb])) hV.cs (reopened (commit P del s)) rfl rfl k]
 
 
+
+
+/-! ## the statistics under a permuted validator flush -/
+
+theorem modify_comm (st : Stat) (i j : Nat) (f g : KStat → KStat) (h : ∀ k, f (g k) = g (f k)) :
+    (st.modify i f).modify j g = (st.modify j g).modify i f := by
+  rcases i with _|_|_|_|_|_|i <;> rcases j with _|_|_|_|_|_|j <;> simp [Stat.modify, h]
+
+def applyMods (st : Stat) (l : List Nat) (f : KStat → KStat) : Stat := l.foldl (fun s i => s.modify i f) st
+
+theorem applyMods_modify (st : Stat) (l : List Nat) (j : Nat) (f g : KStat → KStat) (h : ∀ k, f (g k) = g (f k)) :
+    (applyMods st l f).modify j g = applyMods (st.modify j g) l f := by
+  induction l generalizing st with
+  | nil => rfl
+  | cons i t ih =>
+    simp only [applyMods, List.foldl_cons] at ih ⊢
+    rw [ih (st.modify i f), modify_comm st i j f g h]
+
+theorem applyMods_comm (st : Stat) (l m : List Nat) (f g : KStat → KStat) (h : ∀ k, f (g k) = g (f k)) :
+    applyMods (applyMods st l f) m g = applyMods (applyMods st m g) l f := by
+  induction m generalizing st with
+  | nil => rfl
+  | cons j t ih =>
+    have e1 : applyMods (applyMods st l f) (j :: t) g = applyMods ((applyMods st l f).modify j g) t g := rfl
+    have e2 : applyMods st (j :: t) g = applyMods (st.modify j g) t g := rfl
+    rw [e1, e2, applyMods_modify st l j f g h, ih]
+
+theorem forVal_eq (st : Stat) (v : Val) (f : KStat → KStat) : st.forVal v f = applyMods st [2 + v.role, kindOfRole v.role, 0] f := rfl
+
+/-- a validator deleted at the flush that holds neither stake nor token: no clamped subtraction can fire -/
+def ZeroStake (v : Val) : Prop := v.stake = 0 ∧ v.token = 0
+
+theorem subVal_comm (v w : Val) (hv : ZeroStake v) (hw : ZeroStake w) (k : KStat) :
+    (k.subVal w).subVal v = (k.subVal v).subVal w := by
+  obtain ⟨v1, v2⟩ := hv
+  obtain ⟨w1, w2⟩ := hw
+  unfold KStat.subVal
+  by_cases a : v.status = 1 <;> by_cases b : w.status = 1 <;> simp [a, b, v1, v2, w1, w2, clampSub]
+
+theorem decrStat_comm (st : Stat) (v w : Val) (hv : ZeroStake v) (hw : ZeroStake w) :
+    decrStat (decrStat st v) w = decrStat (decrStat st w) v := by
+  unfold decrStat
+  rw [forVal_eq, forVal_eq, forVal_eq, forVal_eq]
+  exact applyMods_comm st _ _ _ _ (fun k => subVal_comm v w hv hw k)
+
+def statStep (del : Bool) (vals : List (Bytes × Val)) (st : Stat) (a : Bytes) : Stat :=
+  match aget vals a with
+  | some v => if wd del v then decrStat st v else st
+  | none => st
+
+theorem decrStat_vflag (del : Bool) (st : Stat) (v : Val) : decrStat st (vflag del v) = decrStat st v := by
+  by_cases h : wd del v = true
+  · rw [vflag_pos h]; rfl
+  · rw [vflag_neg h]
+
+theorem flushVal_stat (del : Bool) (s : St) (a : Bytes) : (flushVal del s a).stat = statStep del s.vals s.stat a := by
+  unfold flushVal statStep wd
+  cases aget s.vals a with
+  | none => rfl
+  | some v => by_cases h : (v.deleted || (del && v.isInvalid)) = true <;> simp [h]
+
+theorem statStep_stable (del : Bool) (s : St) (a : Bytes) : statStep del (flushVal del s a).vals = statStep del s.vals := by
+  funext st x
+  unfold statStep
+  rw [(flushVal_get del s a x).1]
+  by_cases hx : a = x
+  · rw [if_pos hx]
+    cases aget s.vals x with
+    | none => rfl
+    | some v => simp [wd_vflag, decrStat_vflag]
+  · rw [if_neg hx]
+
+theorem foldl_flushVal_stat (del : Bool) (l : List Bytes) (s : St) :
+    (l.foldl (flushVal del) s).stat = l.foldl (statStep del s.vals) s.stat := by
+  induction l generalizing s with
+  | nil => rfl
+  | cons a t ih =>
+    simp only [List.foldl_cons]
+    rw [ih (flushVal del s a), statStep_stable, flushVal_stat]
+
+/-- no clamp fires: every validator this flush deletes has zero stake and zero token -/
+def NoClamp (del : Bool) (s : St) : Prop :=
+  ∀ a v, a ∈ s.valD → aget s.vals a = some v → wd del v = true → ZeroStake v
+
+theorem flushVals_stat_perm (del : Bool) (s : St) (d : List Bytes) (hd : d.Perm s.valD) (hz : NoClamp del s) :
+    (d.foldl (flushVal del) s).stat = (s.valD.foldl (flushVal del) s).stat := by
+  rw [foldl_flushVal_stat, foldl_flushVal_stat]
+  apply List.Perm.foldl_eq' hd
+  intro x hx y hy st
+  unfold statStep
+  cases hvx : aget s.vals x with
+  | none => rfl
+  | some v =>
+    cases hvy : aget s.vals y with
+    | none => rfl
+    | some w =>
+      by_cases h1 : wd del v = true <;> by_cases h2 : wd del w = true <;> simp [h1, h2]
+      exact decrStat_comm st v w (hz x v (hd.mem_iff.mp hx) hvx h1) (hz y w (hd.mem_iff.mp hy) hvy h2)
+
+
+
+
+/-! ## the validator index under a permuted validator flush -/
+
+def dq (del : Bool) (vals : List (Bytes × Val)) (x : Bytes) : Bool :=
+  match aget vals x with | some v => wd del v | none => false
+def uq (del : Bool) (vals : List (Bytes × Val)) (x : Bytes) : Bool :=
+  match aget vals x with | some v => !wd del v | none => false
+
+theorem dq_uq_stable (del : Bool) (s : St) (a : Bytes) :
+    dq del (flushVal del s a).vals = dq del s.vals ∧ uq del (flushVal del s a).vals = uq del s.vals := by
+  constructor <;> funext x <;> simp only [dq, uq] <;> rw [(flushVal_get del s a x).1] <;> by_cases hx : a = x
+  · rw [if_pos hx]; cases aget s.vals x <;> simp [wd_vflag]
+  · rw [if_neg hx]
+  · rw [if_pos hx]; cases aget s.vals x <;> simp [wd_vflag]
+  · rw [if_neg hx]
+
+theorem flushVal_index (del : Bool) (s : St) (a x : Bytes) :
+    x ∈ (flushVal del s a).index ↔
+      (dq del s.vals a = true ∧ x ∈ s.index ∧ x ≠ a) ∨ (uq del s.vals a = true ∧ (x = a ∨ x ∈ s.index)) ∨
+      (dq del s.vals a = false ∧ uq del s.vals a = false ∧ x ∈ s.index) := by
+  unfold flushVal dq uq wd
+  cases aget s.vals a with
+  | none => simp
+  | some v =>
+    by_cases h : (v.deleted || (del && v.isInvalid)) = true
+    · simp [h, List.mem_filter]
+    · simp [h, mem_addIfNew]
+
+theorem foldl_flushVal_index (del : Bool) (l : List Bytes) (s : St) (x : Bytes) :
+    x ∈ (l.foldl (flushVal del) s).index ↔
+      (x ∈ s.index ∧ ¬ (x ∈ l ∧ dq del s.vals x = true)) ∨ (x ∈ l ∧ uq del s.vals x = true) := by
+  induction l generalizing s with
+  | nil => simp
+  | cons a t ih =>
+    simp only [List.foldl_cons, List.mem_cons]
+    rw [ih (flushVal del s a), (dq_uq_stable del s a).1, (dq_uq_stable del s a).2, flushVal_index]
+    have hex : ¬ (dq del s.vals x = true ∧ uq del s.vals x = true) := by
+      unfold dq uq; cases aget s.vals x <;> simp
+    by_cases hxa : x = a
+    · subst hxa
+      cases hd : dq del s.vals x <;> cases hu : uq del s.vals x <;> simp_all
+    · cases hd : dq del s.vals a <;> cases hu : uq del s.vals a <;> simp_all
+
+/-- the index after the validator flush is the same set for every order of the dirty set -/
+theorem flushVals_index_perm (del : Bool) (s : St) (d : List Bytes) (hd : d.Perm s.valD) :
+    sortKeys (d.foldl (flushVal del) s).index = sortKeys (s.valD.foldl (flushVal del) s).index := by
+  apply sortKeys_ext
+  intro x
+  rw [foldl_flushVal_index, foldl_flushVal_index]
+  simp only [hd.mem_iff]
+
+
+
+
+theorem iroot_stat_index (P : Prim) (del : Bool) (s : St) :
+    (iroot P del s).stat = (s.valD.foldl (flushVal del) (flushAccts P (finalise del s))).stat ∧
+    (iroot P del s).index = (s.valD.foldl (flushVal del) (flushAccts P (finalise del s))).index ∧
+    (iroot P del s).queue = s.queue := by
+  unfold iroot
+  obtain ⟨f1, f2, f3, _⟩ := flushRelats_frame2 (flushRecs (saveSingles (flushVals del (flushAccts P (finalise del s)))))
+  rw [f1, f2, f3]
+  refine ⟨?_, ?_, ?_⟩
+  · simp [flushRecs, saveSingles, flushVals, flushAccts, finalise]
+  · simp [flushRecs, saveSingles, flushVals, flushAccts, finalise]
+  · simp only [flushRecs, saveSingles, flushVals]
+    rw [(foldl_flushVal_frame2 del _ _).2.2.1]
+    simp [flushAccts, finalise]
+
+theorem iroot_relats_bytes (P : Prim) (del : Bool) (s : St) :
+    (iroot P del s).t.stk.relats = if s.relatsDirty then enc (bytesListItem s.relats) else s.t.stk.relats := by
+  unfold iroot
+  have hX : (flushRecs (saveSingles (flushVals del (flushAccts P (finalise del s))))).relatsDirty = s.relatsDirty ∧
+      (flushRecs (saveSingles (flushVals del (flushAccts P (finalise del s))))).relats = s.relats ∧
+      (flushRecs (saveSingles (flushVals del (flushAccts P (finalise del s))))).t.stk.relats = s.t.stk.relats := by
+    simp only [flushRecs, saveSingles, flushVals]
+    rw [(foldl_flushVal_frame2 del _ _).1, (foldl_flushVal_frame2 del _ _).2.1, (foldl_flushVal_frame del _ _).2.1]
+    simp [flushAccts, finalise]
+  obtain ⟨x1, x2, x3⟩ := hX
+  unfold flushRelats
+  by_cases hd : s.relatsDirty = true
+  · rw [if_pos (by rw [x1]; exact hd), if_pos hd]; simp [x2]
+  · rw [if_neg (by rw [x1]; exact hd), if_neg hd]; exact x3
+
+/-- **the singleton leaves under permuted dirty sets**: saved index, statistics (no clamp firing), withdraw queue and
+pending relationships are byte-identical -/
+theorem iroot_singles_perm (P : Prim) (del : Bool) (s : St) (j p d r : List Bytes) (hd : d.Perm s.valD) (hz : NoClamp del s) :
+    (iroot P del { s with acctJ := j, acctP := p, valD := d, recD := r }).t.val.index = (iroot P del s).t.val.index ∧
+    (iroot P del { s with acctJ := j, acctP := p, valD := d, recD := r }).t.val.stat = (iroot P del s).t.val.stat ∧
+    (iroot P del { s with acctJ := j, acctP := p, valD := d, recD := r }).t.val.queue = (iroot P del s).t.val.queue ∧
+    (iroot P del { s with acctJ := j, acctP := p, valD := d, recD := r }).t.stk.relats = (iroot P del s).t.stk.relats := by
+  obtain ⟨a1, a2, a3⟩ := iroot_singles P del { s with acctJ := j, acctP := p, valD := d, recD := r }
+  obtain ⟨b1, b2, b3⟩ := iroot_singles P del s
+  obtain ⟨c1, c2, c3⟩ := iroot_stat_index P del { s with acctJ := j, acctP := p, valD := d, recD := r }
+  obtain ⟨e1, e2, e3⟩ := iroot_stat_index P del s
+  refine ⟨?_, ?_, ?_, ?_⟩
+  · rw [a1, b1, c2, e2]
+    congr 2
+    apply sortKeys_ext
+    intro x
+    rw [foldl_flushVal_index, foldl_flushVal_index]
+    simp [flushAccts, finalise, hd.mem_iff]
+  · rw [a2, b2, c1, e1, foldl_flushVal_stat, foldl_flushVal_stat]
+    congr 2
+    have := flushVals_stat_perm del s d hd hz
+    rw [foldl_flushVal_stat, foldl_flushVal_stat] at this
+    simpa [flushAccts, finalise] using this
+  · rw [a3, b3, c3, e3]
+  · rw [iroot_relats_bytes, iroot_relats_bytes]
+
+
+
+
+/-- validator keys are 20-byte addresses -/
+def Addr20 (c : Content) : Prop := ∀ kv ∈ c, kv.1.length = 20
+
+theorem valKey_inj (a b : Bytes) (ha : a.length = 20) (hb : b.length = 20) (h : valKey a = valKey b) : a = b := by
+  unfold valKey at h
+  by_cases h1 : a = zeroAddr <;> by_cases h2 : b = zeroAddr
+  · rw [h1, h2]
+  · rw [if_pos h1, if_neg h2] at h
+    have : b = [] := List.self_eq_append_right.mp h
+    rw [this] at hb; simp at hb
+  · rw [if_neg h1, if_pos h2] at h
+    have : a = [] := List.self_eq_append_right.mp h.symm
+    rw [this] at ha; simp at ha
+  · rw [if_neg h1, if_neg h2] at h
+    exact List.append_cancel_left h
+
+def valMap (c : Content) : Content := c.map (fun kv => (valKey kv.1, withFlag flagVal kv.2))
+
+theorem cget_valMap (c : Content) (hc : Addr20 c) (a : Bytes) (ha : a.length = 20) :
+    cget (valMap c) (valKey a) = withFlag flagVal (cget c a) := by
+  induction c with
+  | nil => simp [valMap, withFlag]
+  | cons x t ih =>
+    obtain ⟨k0, v0⟩ := x
+    have h0 : k0.length = 20 := hc (k0, v0) (by simp)
+    have ht : Addr20 t := fun kv h => hc kv (List.mem_cons_of_mem _ h)
+    have ih' := ih ht
+    simp only [valMap, List.map_cons, cget_cons] at ih' ⊢
+    by_cases hk : k0 = a
+    · subst hk; simp
+    · have : ¬ valKey k0 = valKey a := fun e => hk (valKey_inj k0 a h0 ha e)
+      rw [if_neg this, if_neg hk]; exact ih'
+
+theorem cget_valMap_other (c : Content) (hc : Addr20 c) (k : Bytes) (hk : ∀ a : Bytes, a.length = 20 → valKey a ≠ k) :
+    cget (valMap c) k = [] := by
+  apply cget_absent
+  intro kv hkv
+  obtain ⟨x, hx, e⟩ := List.mem_map.mp hkv
+  rw [← e]
+  exact hk x.1 (hc x hx)
+
+theorem CEq_valMap (c₁ c₂ : Content) (h1 : Addr20 c₁) (h2 : Addr20 c₂) (h : CEq c₁ c₂) : CEq (valMap c₁) (valMap c₂) := by
+  intro k
+  by_cases hk : ∃ a : Bytes, a.length = 20 ∧ valKey a = k
+  · obtain ⟨a, ha, e⟩ := hk
+    rw [← e, cget_valMap c₁ h1 a ha, cget_valMap c₂ h2 a ha, h a]
+  · have hk' : ∀ a : Bytes, a.length = 20 → valKey a ≠ k := fun a ha e => hk ⟨a, ha, e⟩
+    rw [cget_valMap_other c₁ h1 k hk', cget_valMap_other c₂ h2 k hk']
+
+theorem CEq_append_left (l c₁ c₂ : Content) (h : CEq c₁ c₂) : CEq (l ++ c₁) (l ++ c₂) := by
+  intro k
+  induction l with
+  | nil => exact h k
+  | cons x t ih =>
+    obtain ⟨k0, v0⟩ := x
+    simp only [List.cons_append, cget_cons, ih]
+
+theorem CEq_valContent (p₁ p₂ : ValPart) (h1 : Addr20 p₁.vals) (h2 : Addr20 p₂.vals) (hv : CEq p₁.vals p₂.vals)
+    (hi : p₁.index = p₂.index) (hs : p₁.stat = p₂.stat) (hq : p₁.queue = p₂.queue) : CEq (valContent p₁) (valContent p₂) := by
+  unfold valContent
+  rw [hi, hs, hq]
+  exact CEq_append_left _ _ _ (CEq_valMap _ _ h1 h2 hv)
+
+theorem CEq_stkContent (p₁ p₂ : StkPart) (hr : CEq p₁.recs p₂.recs) (hl : p₁.relats = p₂.relats) : CEq (stkContent p₁) (stkContent p₂) := by
+  unfold stkContent
+  rw [hl]
+  intro k
+  simp only [cget_cons, hr k]
+
+
 end YouVerif.C10
